@@ -483,15 +483,16 @@ class ObjWorld(Run):
         "pauli": ["neg", "mul_i", "mul_m1", "mul_mi", "mul_1", "as_list", "as_monomial", "as_polynomial",
                   "tokenize", "trace", "weight", "repr", "matmul", "pauli_fn", "rot_gate", "rot_map",
                   "diagonalize", "mul_c", "add", "to_qutip"],
-        "mono": ["neg", "mul_c", "as_polynomial", "trace", "repr", "inverse", "matmul", "add"],
+        "mono": ["neg", "mul_c", "as_polynomial", "trace", "repr", "inverse", "matmul", "add", "to_qutip"],
         "list": ["neg", "mul_i", "mul_m1", "get_int", "get_slice", "get_idx", "get_mask", "as_polynomial",
                  "tokenize", "trace", "weight", "repr", "len", "paulis_fn", "stabilizer_state", "to_qutip"],
         "poly": ["neg", "mul_c", "add", "sub", "matmul", "reduce", "trace", "get_int", "get_slice", "repr",
-                 "div", "as_polynomial"],
+                 "div", "as_polynomial", "to_qutip", "tokenize", "weight", "len"],
         "map": ["compose", "inverse", "to_state", "repr", "get_slice", "neg", "tokenize", "weight"],
         "state": ["expect_pauli", "expect_list", "expect_poly", "expect_state", "entropy", "sample",
                   "get_prob", "density_matrix", "to_map", "stabilizers", "repr", "tokenize", "to_qutip",
-                  "diagonalize", "get_slice", "expect_self_stabilizers", "measure_copy"],
+                  "diagonalize", "get_slice", "expect_self_stabilizers", "measure_copy",
+                  "neg", "mul_c", "div", "add", "sub", "matmul"],
         "gate": ["repr", "independent_from"],
         "layer": ["repr"],
         "circuit": ["repr", "povm"],
